@@ -97,6 +97,8 @@ def _cases(draw, tier):
         consts_all['fwd'] = fwd
     placements = []
     shared = {}
+    first = {}
+    same_text = False
     minted = {}
     # twin mode: the second statement is the first up to letter case (case-twin constants, case-swapped letter
     # literals) but denotes other values: nothing but the statement's own operand values may reach its bytes
@@ -114,11 +116,19 @@ def _cases(draw, tier):
             if not dep and j in shared:
                 ops.append(shared[j])
                 continue
+            if dep and pi == 1 and j in first and draw(st.integers(0, 2)) == 0:
+                # the very same operand text at another address: an address-relative field must be computed afresh
+                # (and may now violate its constraints, which the reference decides)
+                ops.append(first[j])
+                same_text = True
+                continue
             o = draw(isagen.operand_for(alt, None, place))
             if o is None:
                 return {'skip': 'no operand value satisfies the constraints at this address', 'isa': cfg}
             if not dep:
                 shared[j] = o
+            elif pi == 0:
+                first[j] = o
             ops.append(o)
         placements.append({'base': base, 'ops': ops})
     consts = dict(consts)
@@ -151,7 +161,7 @@ def _cases(draw, tier):
         except (R.Reject, R.Unspecified):
             twin = False
     return {
-        'twin': twin,
+        'twin': twin, 'same_text_at_both_addresses': same_text,
         'isa': cfg, 'fmt': draw(st.sampled_from(['yaml', 'yaml', 'json'])), 'mn': mn, 'variant_intended': vi,
         'consts': consts, 'fwd': fwd if fwd <= ghi else None, 'size_intended': size,
         'placements': placements, 'fill': draw(st.sampled_from([0, 0xEE, 0xFF])),
@@ -253,7 +263,8 @@ def execute(case, ctx):
     detail = {'source': src, 'isa_file': fname, 'argv': argv, 'model': verdict + (': ' + why if why else ''),
               'run': res.brief()}
     feats = field_features(isa, case)
-    classes = sorted(feats) + ['outcome:' + res.klass, 'model:' + verdict] + (['case-twin-statements'] if case.get('twin') else [])
+    classes = sorted(feats) + ['outcome:' + res.klass, 'model:' + verdict] + (['case-twin-statements'] if case.get('twin') else []) + \
+        (['address-relative-operand-text-repeated-at-another-address'] if case.get('same_text_at_both_addresses') else [])
     findings = []
     if res.klass == 'timeout':
         findings.append(Finding('C01/timeout', detail))
